@@ -90,6 +90,14 @@ Proof.
     rewrite seq_nth by exact Hn. reflexivity.
 Qed.
 
+(* ---- keyNextSync's guard ------------------------------------------------------- *)
+Lemma no_rekey_while_moving : forall c p, roll_allowed c p true = false.
+Proof. intros [|] [|]; reflexivity. Qed.
+Lemma no_rekey_while_pending : forall c m, roll_allowed c true m = false.
+Proof. intros [|] [|]; reflexivity. Qed.
+Lemma roll_allowed_iff : forall c p m, roll_allowed c p m = true <-> c = true /\ p = false /\ m = false.
+Proof. intros [|] [|] [|]; cbn; split; intros H; try discriminate H; auto; destruct H as (A & B & C); discriminate. Qed.
+
 (* ---- the text form of a key --------------------------------------------------- *)
 Lemma hex_roundtrip : forall b, Forall (fun x => 0 <= x) b -> hex_dec (hex_enc b) = b.
 Proof.
